@@ -82,6 +82,20 @@ func enumC15(tier string, shard, nshards int, yield func(C15Case) bool) (bool, s
 	if ok, _ := enumWidePairs(tier, shard, nshards, func(pc PairCase) bool { return yield(C15Case{Pair: pc}) }); !ok && false {
 		return false, ""
 	}
+	// a dense run of keys plus ONE far key of a high layer (a chain of key-less nodes on one side only, above subtrees
+	// that both versions share), in both directions
+	for _, fk := range [][3]int{{4, 320, 448}, {4, 300, 384}, {2, 200, 256}, {2, 300, 384}, {3, 250, 324}, {3, 100, 243}, {16, 300, 512}} {
+		for dir := 0; dir < 2; dir++ {
+			i++
+			if i%nshards != shard {
+				continue
+			}
+			cs := C15Case{Big: fk[1], BigBF: uint(fk[0]), Changes: []int{fk[2]}, ColdCache: dir == 1}
+			if !yield(cs) {
+				return false, ""
+			}
+		}
+	}
 	// versions one key apart whose heights differ: exactly bf^k entries plus one insert (the tree grows a level), and
 	// bf^k+1 entries minus one (it shrinks): every subtree is common to both versions but sits one level deeper in one
 	for _, bf := range []uint{2, 3, 4, 16} {
@@ -398,6 +412,16 @@ func runC15(c C15Case, o *run.Obs) error {
 			if pa, pb, ok := open2(); ok {
 				diffPrelude(&pair{old: pa, new: pb}, prelude)
 				o.Label("after-an-abandoned-diff")
+			}
+		}
+		if c.WriterCache && wNew.Cache != nil {
+			// the writer's cache has also served ordinary lookups on this version before the diff
+			if lt, err := wNew.Load(newSR, nil, wNew.Cache, false); err == nil {
+				for j, ki := range newSR.Model.Keys() {
+					if j%3 == 0 || j < 8 {
+						_ = wNew.Get(lt, ki)
+					}
+				}
 			}
 		}
 		oldT, newT, ok := open2()
